@@ -72,12 +72,14 @@ def dg(content):
 def book_sets(pg):
     return dict(pops=sorted(pg.pops.keys()), progs=sorted(pg.programs.keys()), pars=sorted(pg.pars.keys()),
                 targets=sorted("%s|%s" % (p.name, pop) for p in pg.programs.values() for pop in p.target_pops),
-                effects=sorted("%s|%s|%s" % (par, pop, prog) for (par, pop), co in pg.covouts.items() for prog in co.progs))
+                effects=sorted("%s|%s|%s" % (par, pop, prog) for (par, pop), co in pg.covouts.items() for prog in co.progs),
+                comps=sorted(pg.comps.keys()), ctargets=sorted("%s|%s" % (p.name, c) for p in pg.programs.values() for c in p.target_comps))
 
 
 def want_sets(content):
     return dict(pops=sorted(content["pops"]), progs=sorted(content["progs"]), pars=sorted(content["pars"]),
-                targets=sorted("%s|%s" % tuple(t) for t in content["targets"]), effects=sorted("%s|%s|%s" % tuple(e) for e in content["effects"]))
+                targets=sorted("%s|%s" % tuple(t) for t in content["targets"]), effects=sorted("%s|%s|%s" % tuple(e) for e in content["effects"]),
+                comps=sorted(content["comps"]), ctargets=sorted("%s|%s" % tuple(t) for t in content["ctargets"]))
 
 
 def tla_set(xs):
@@ -195,15 +197,22 @@ def run(prop, tier):
         mc += "MCPops == %s\nMCProgs == %s\nMCPars == %s\n" % (tla_set(map(q, bs["pops"])), tla_set(map(q, bs["progs"])), tla_set(map(q, bs["pars"])))
         mc += "MCTargets == %s\n" % tla_set("<<%s>>" % ",".join(map(q, t.split("|"))) for t in bs["targets"])
         mc += "MCEffects == %s\n" % tla_set("<<%s>>" % ",".join(map(q, e.split("|"))) for e in bs["effects"])
-        mc += 'MCOps == {"copy", "sample0", "roundtrip", "add_pop", "remove_pop", "add_program", "remove_program", "remove_par"}\n====\n'
-        cfg = "SPECIFICATION Spec\nCONSTANTS\n Pops0 <- MCPops\n Progs0 <- MCProgs\n Pars0 <- MCPars\n Targets0 <- MCTargets\n Effects0 <- MCEffects\n NewPop = \"newpop\"\n NewProg = \"newprog\"\n MaxLen = %d\n Ops <- MCOps\nINVARIANT WellFormed\nCHECK_DEADLOCK FALSE\n" % (3 if thorough else 2)
+        mc += "MCComps == %s\nMCCTargets == %s\n" % (tla_set(map(q, bs["comps"])), tla_set("<<%s>>" % ",".join(map(q, t.split("|"))) for t in bs["ctargets"]))
+        mc += 'MCOps == {"copy", "sample0", "roundtrip", "add_pop", "remove_pop", "add_program", "remove_program", "remove_par", "add_par", "remove_comp", "add_comp"}\n====\n'
+        cfg = "SPECIFICATION Spec\nCONSTANTS\n Pops0 <- MCPops\n Progs0 <- MCProgs\n Pars0 <- MCPars\n Targets0 <- MCTargets\n Effects0 <- MCEffects\n Comps0 <- MCComps\n CTargets0 <- MCCTargets\n NewPop = \"newpop\"\n NewProg = \"newprog\"\n MaxLen = %d\n Ops <- MCOps\nINVARIANT WellFormed\nCHECK_DEADLOCK FALSE\n" % (3 if thorough else 2)
         r, hists = C.enumerate_cases(["Books"], "MCBooks", cfg, timeout=2400, generated={"MCBooks.tla": mc})
         cov["states"] += r.distinct
         cov["transitions"] += r.generated
         full = [h for h in hists]
         nmax = 400 if thorough else 120
         if len(full) > nmax:
-            full = [full[i] for i in rng.permutation(len(full))[:nmax]]
+            # histories that re-add a removed compartment or parameter need two cooperating operations: a plain sample of the histories
+            # rarely holds one, so a share of the sample is reserved for them
+            readd = [h for h in full if any(op in ("add_comp", "add_par") for op, _ in h["hist"])]
+            rest = [h for h in full if not any(op in ("add_comp", "add_par") for op, _ in h["hist"])]
+            readd = [readd[i] for i in rng.permutation(len(readd))[: nmax // 4]]
+            full = readd + [rest[i] for i in rng.permutation(len(rest))[: nmax - len(readd)]]
+            cov["histories_readding"] = cov.get("histories_readding", 0) + len(readd)
         cov["histories"] += len(full)
         ins_year = float(P.settings.sim_start + 2)
         for h in full:
@@ -230,6 +239,12 @@ def run(prop, tier):
                         pg.remove_program(arg)
                     elif op == "remove_par":
                         pg.remove_par(arg)
+                    elif op == "add_par":
+                        pg.add_par(arg, P.framework.get_label(arg))
+                    elif op == "remove_comp":
+                        pg.remove_comp(arg)
+                    elif op == "add_comp":
+                        pg.add_comp(arg, P.framework.get_label(arg))
                 except Exception as ex:
                     V.violation("C16 %s raised %s" % (op, type(ex).__name__), dict(model=name, history=h["hist"], error=str(ex)[:300]))
                     ok = False
@@ -237,7 +252,7 @@ def run(prop, tier):
             if not ok:
                 continue
             got, want = book_sets(pg), want_sets(h["content"])
-            for k in ("pops", "progs", "targets", "effects"):  # (the targetable parameters are re-derived from the framework on import: not independent visible data)
+            for k in ("pops", "progs", "pars", "targets", "effects", "comps", "ctargets"):  # (Books.RoundTrip: the lists of targetable parameters and of compartments are read from the framework again on import)
                 records.append(dict(id=rid, kind="content", want=want[k], got=got[k]))
                 index[rid] = dict(label=dict(model=name, history=h["hist"]), what="visible %s after the history" % k, extra=sorted(set(got[k]) - set(want[k]))[:5], missing=sorted(set(want[k]) - set(got[k]))[:5])
                 rid += 1
@@ -246,7 +261,9 @@ def run(prop, tier):
                 ss1 = pg.to_spreadsheet()
                 pg2 = at.ProgramSet.from_spreadsheet(ss1, framework=P.framework, data=D, _allow_missing_data=True)
                 pg3 = at.ProgramSet.from_spreadsheet(pg2.to_spreadsheet(), framework=P.framework, data=D, _allow_missing_data=True)
-                records.append(dict(id=rid, kind="same", a=dg(progset_content(pg)), b=dg(progset_content(pg2))))
+                exp_ = progset_content(pg)
+                exp_["comps"] = bs["comps"]  # (Books.RoundTrip: comps' = Comps0, the list of compartments is read from the framework again)
+                records.append(dict(id=rid, kind="same", a=dg(exp_), b=dg(progset_content(pg2))))
                 index[rid] = dict(label=dict(model=name, history=h["hist"]), what="program set vs rebuilt from its own export (visible content)")
                 rid += 1
                 records.append(dict(id=rid, kind="same", a=dg(progset_content(pg2)), b=dg(progset_content(pg3))))
